@@ -450,6 +450,7 @@ class BaseOdeModel(object):
         else:
             raise InputError("Expecting a list")
 
+        self.set_sp()
         self._hasNewTransition.trip()
 
     @property
